@@ -788,6 +788,9 @@ func (vc *VC) val(st *State, v ssa.Value) Val {
 	case *ssa.Const:
 		return vc.constTerm(v.Value, v.Type())
 	case *ssa.Global:
+		if t := vc.constGlobal(v); t != nil {
+			return &GlobalConst{T: t}
+		}
 		return vc.global(v)
 	case *ssa.Function:
 		return &FuncVal{Fn: v}
